@@ -27,11 +27,39 @@ func (g *Gen) OlvmStory(id string, blocks int) *Scenario {
 		evs = append(evs, ev{h, STx{Req: t, Path: path}})
 	}
 	eoas := g.G.EthAccounts[:3]
+	// the fork that switches the EVM on may lie inside the history (family olvmfork): requests before it - checked by the
+	// mempool or put into a block unchecked - must be refused; one put into the fork block itself executes
+	fork := int(g.G.Fork)
+	if fork < 1 {
+		fork = 1
+	}
+	for hh := 1; hh < fork; hh++ {
+		for k := g.R.Intn(3); k > 0; k-- {
+			f := g.pick(eoas)
+			path := "direct"
+			if g.R.Intn(3) == 0 {
+				path = "honest"
+			}
+			a := A{"from": f, "to": g.pick(eoas), "amt": g.rng(0, 900), "nonce": 0, "data": ""}
+			if g.R.Intn(3) == 0 {
+				a = A{"from": f, "to": "", "amt": 0, "nonce": 0, "data": "create:store"}
+			}
+			add(hh, a, path, "fork:before", 200000, 1, nil, "")
+		}
+		if g.R.Intn(2) == 0 { // natives pay EVM accounts before the fork
+			evs = append(evs, ev{hh, STx{Req: TxReq{Kind: "SEND", A: A{"from": g.pick(g.accts), "to": g.pick(eoas), "amt": g.rng(1, 2000)}}, Path: "honest"}})
+		}
+	}
+	if fork > 1 && g.R.Intn(2) == 0 {
+		f := eoas[2] // e3 deploys nothing: its sequence number is free
+		add(fork, A{"from": f, "to": g.pick(eoas[:2]), "amt": g.rng(0, 900), "nonce": 0, "data": ""}, "direct", "", 120000, 1, nil, "")
+		nonce[f]++
+	}
 	// e4 spends everything it has in one transfer (gas limit = the 21000 a plain transfer uses), is paid again by a native
 	// account and goes on with its next sequence number: an account at balance zero keeps its record
 	if len(g.G.EthAccounts) > 3 && g.R.Intn(2) == 0 {
 		d := g.G.EthAccounts[3]
-		h0 := 3 + g.R.Intn(3)
+		h0 := fork + 2 + g.R.Intn(3)
 		add(h0, A{"from": d, "to": "e1", "amt": g.G.Balance - 21000, "nonce": 0, "data": ""}, "honest", "", 21000, 1, nil, "")
 		t := TxReq{Kind: "SEND", A: A{"from": "a1", "to": d, "amt": 60000}}
 		if h0+2 <= blocks {
@@ -42,7 +70,7 @@ func (g *Gen) OlvmStory(id string, blocks int) *Scenario {
 	progs := []string{"store", "forward", "probe", "revert", "loop", "suicide", "toggle"}
 	deployed := map[string]string{} // program -> contract name
 	// deployments in the first blocks, sequence numbers as they come
-	h := 2 // the EVM is enabled by the first BeginBlock: the mempool check accepts OLVM requests from then on
+	h := fork + 1 // the EVM is enabled by the BeginBlock of the fork height: the mempool check accepts OLVM requests from then on
 	for i, p := range progs {
 		if g.R.Intn(8) == 0 && p != "store" {
 			continue
